@@ -82,6 +82,7 @@ const prelude = `(declare-sort Ref 0)
 (assert (forall ((s Str) (lo Int) (hi Int) (i Int)) (! (=> (and (<= 0 lo) (<= lo hi) (<= hi (slen s)) (<= 0 i) (< i (- hi lo))) (= (sat (ssub s lo hi) i) (sat s (+ lo i)))) :pattern ((sat (ssub s lo hi) i)))))
 (assert (forall ((s Str)) (! (= (ssub s 0 (slen s)) s) :pattern ((ssub s 0 (slen s))))))
 (assert (forall ((a Str) (b Str)) (! (= (slen (scat a b)) (+ (slen a) (slen b))) :pattern ((scat a b)))))
+(assert (forall ((a Str)) (! (and (= (scat str_empty a) a) (= (scat a str_empty) a)) :pattern ((scat str_empty a)) :pattern ((scat a str_empty)))))
 (assert (forall ((a Str) (b Str) (i Int)) (! (= (sat (scat a b) i) (ite (< i (slen a)) (sat a i) (sat b (- i (slen a))))) :pattern ((sat (scat a b) i)))))
 (assert (forall ((x Int) (m Int)) (! (and (<= 0 (and32 x m)) (<= (and32 x m) x) (<= (and32 x m) m)) :pattern ((and32 x m)))))
 `
